@@ -46,6 +46,7 @@ def check(rep: Report, ctx: Ctx) -> None:
     r45(rep, ctx)
     r46(rep, ctx)
     r47(rep, ctx)
+    r48(rep, ctx)
 
 
 def r47(rep: Report, ctx: Ctx) -> None:
@@ -709,3 +710,16 @@ def r46(rep: Report, ctx: Ctx) -> None:
            detail=f"fields {sorted(flds)}")
     rep.obligations[-1].func = ga.qualname
     rep.obligations[-1].file = ga.module.relpath
+
+
+def r48(rep: Report, ctx: Ctx) -> None:
+    """Chunked learning equals one-shot learning because evidence is a SET
+    of multiset observations: the observation must keep its counts through
+    construction, listing (the model file and every mirroring step list it)
+    and removal."""
+    from .effspec import check_table
+    from .walkspec import MODEL_TABLE
+    rep.rule("R4.8", "an observation keeps its counts: EventSet(l).to_list() "
+             "is l up to order; accumulation and removal work on whole "
+             "observations", 8)
+    check_table(rep, ctx, "R4.8", MODEL_TABLE, list(MODEL_TABLE))
